@@ -297,6 +297,20 @@ def main_wrapper(fn):
     sys.exit(rc)
 
 
+def apalache_check(wd, module, cinit, init, inv, length, timeout=1800):
+    """One bounded Apalache run in a scratch copy of spec/. Returns (outcome, seconds): outcome 'NoError' | 'Error' | 'failed:<tail>'."""
+    d = os.path.join(wd, "apalache-%s-%s-%s-%d" % (module, cinit, inv, length))
+    os.makedirs(d, exist_ok=True)
+    shutil.copy(os.path.join(SPEC, module + ".tla"), d)
+    t0 = time.time()
+    p = subprocess.run(["apalache-mc", "check", "--cinit=" + cinit, "--init=" + init, "--inv=" + inv, "--length=%d" % length,
+                        "--out-dir=" + os.path.join(d, "out"), module + ".tla"], cwd=d, stdout=subprocess.PIPE, stderr=subprocess.STDOUT,
+                       text=True, timeout=timeout)
+    m = re.search(r"The outcome is: (\w+)", p.stdout)
+    shutil.rmtree(d, ignore_errors=True)
+    return (m.group(1) if m else "failed:" + p.stdout[-600:]), round(time.time() - t0, 1)
+
+
 def run(cmd, cwd=None, timeout=600, env=None, check=True, input=None):
     p = subprocess.run(cmd, cwd=cwd, env=env, stdout=subprocess.PIPE, stderr=subprocess.PIPE, text=True,
                        timeout=timeout, input=input)
